@@ -238,7 +238,7 @@ Proof.
       - destruct (t_buf (c_pool c t)); [discriminate|]. injection E as <- <- <-. repeat split; try reflexivity; discriminate.
       - injection E as <- <- <-. repeat split; try reflexivity; discriminate.
       - destruct (N.eqb_spec c0 0); [|destruct (c0 =? 1); discriminate].
-        injection E as <- <- <-. repeat split; try reflexivity; try discriminate. cbn [null_pair]. apply N.eqb_eq; assumption. }
+        injection E as <- <- <-. repeat split; try reflexivity; try discriminate. cbn [null_pair is_chunkzero]. rewrite andb_true_r. apply N.eqb_eq; assumption. }
     destruct Hall as (Hnull & Hns & Hesr).
     destruct (null_facts e o r Hnull) as (Hcov & Hla & _).
     apply iD_commit; try assumption; auto.
